@@ -258,7 +258,7 @@ def check(run):
     jobs = []
     for idx, (width, keys, order) in enumerate(families):
         # cheap families use one reader each in turn; structured ones use all
-        use = readers if (thorough or width >= 4 or len(keys) <= 2 and order is None) else (readers[idx % len(readers)],)
+        use = readers if ((thorough and width <= 3) or (width >= 4 and len(keys) <= 16 and not (thorough and width == 4)) or len(keys) <= 2 and order is None) else (readers[idx % len(readers)],)
         for rd in dict.fromkeys(use):
             jobs.append((width, keys, order, rd))
     import multiprocessing as mp
